@@ -7,6 +7,7 @@ import (
 	"net"
 	"net/netip"
 	"sync"
+	"sync/atomic"
 	"time"
 	"unsafe"
 
@@ -454,6 +455,8 @@ func checkC12() fw.Check {
 			cases = append(cases, fw.Case{ID: "C12/drop-all", Run: func(c *fw.Ctx) {
 				runC12Program(c, "drop-all", "drop-all", packets.PacketFilterSpec{FilterType: packets.FilterTypeICMP}, func([]byte) bool { return false }, enumICMP, true)
 			}})
+			// (d) generation under concurrency: the runs of one request install their tuple filters at the same time
+			cases = append(cases, fw.Case{ID: "C12/concurrent-generation", Run: func(c *fw.Ctx) { runC12ConcurrentGen(c, c.ID, c.Rng) }})
 			// (c) the real AF_PACKET source: sequences of filter installations with frames in flight
 			nLive := 6
 			if tier == "thorough" {
@@ -667,4 +670,52 @@ func indexOfFilter(name string) int {
 		return 1
 	}
 	return 2
+}
+
+// runC12ConcurrentGen: 8 goroutines generate the programs of 8 different tuples over and over at the same time; every
+// program must equal the one generated for that tuple when nothing else was running.
+func runC12ConcurrentGen(c *fw.Ctx, id string, r *rand.Rand) {
+	cfgs := tupleConfigs(r, 8)
+	specOf := func(cfg tupleCfg) packets.PacketFilterSpec {
+		return packets.PacketFilterSpec{FilterType: packets.FilterTypeTCP, FilterConfig: packets.FilterConfig{
+			Src: netip.AddrPortFrom(netip.AddrFrom4(cfg.src), cfg.sport), Dst: netip.AddrPortFrom(netip.AddrFrom4(cfg.dst), cfg.dport)}}
+	}
+	var want [][]bpf.RawInstruction
+	for _, cfg := range cfgs {
+		p, err := packets.VerifClassicBPFFilter(specOf(cfg))
+		if err != nil {
+			c.Inconclusive(id + ": " + err.Error())
+			return
+		}
+		want = append(want, append([]bpf.RawInstruction(nil), p...))
+	}
+	var wg sync.WaitGroup
+	var bad atomic.Int64
+	var firstBad atomic.Value
+	gate := make(chan struct{})
+	const per = 4000
+	for g := range cfgs {
+		wg.Add(1)
+		go func(g int) {
+			defer wg.Done()
+			<-gate
+			for i := 0; i < per; i++ {
+				p, err := packets.VerifClassicBPFFilter(specOf(cfgs[g]))
+				same := err == nil && len(p) == len(want[g])
+				for k := 0; same && k < len(p); k++ {
+					same = p[k] == want[g][k]
+				}
+				if !same && bad.Add(1) == 1 {
+					firstBad.Store(fmt.Sprintf("goroutine %d iteration %d (tuple %v:%d->%v:%d)", g, i, cfgs[g].src, cfgs[g].sport, cfgs[g].dst, cfgs[g].dport))
+				}
+			}
+		}(g)
+	}
+	close(gate)
+	wg.Wait()
+	c.Count("concurrent_generations", per*len(cfgs))
+	c.Nontrivial("concurrent-generation")
+	if n := bad.Load(); n > 0 {
+		c.Violate("C12", "generation-not-reentrant/tuple", fmt.Sprintf("%s: %d of %d programs generated while other tuples were being generated differ from the program of their own tuple; first: %v", id, n, per*len(cfgs), firstBad.Load()), nil)
+	}
 }
